@@ -419,6 +419,10 @@ def cond_formula(e: ast.AST, roles: Roles, extra: Dict[str, str], binder_seen: l
         return ('and', parts) if isinstance(e.op, ast.And) else ('or', parts)
     if isinstance(e, ast.Constant) and isinstance(e.value, bool):
         return ('const', e.value)
+    if isinstance(e, ast.IfExp):
+        c = cond_formula(e.test, roles, extra, binder_seen)
+        return ('or', [('and', [c, cond_formula(e.body, roles, extra, binder_seen)]),
+                       ('and', [F_not(c), cond_formula(e.orelse, roles, extra, binder_seen)])])
     ex = facts.exists_form(e)
     if ex is None and isinstance(e, ast.Call) and isinstance(e.func, ast.Name) and e.func.id == 'bool' and e.args:
         ex = facts.exists_form(e.args[0])
